@@ -128,6 +128,8 @@ pub struct Out {
     samples: BTreeMap<String, Value>,
     pub files: Vec<String>,
     nontrivial_distinct: std::collections::HashSet<u64>,
+    /// applied to every event before it is written (drivers use it to tag events)
+    pub post: Option<fn(&mut Value)>,
 }
 
 impl Out {
@@ -145,13 +147,17 @@ impl Out {
             samples: BTreeMap::new(),
             files: Vec::new(),
             nontrivial_distinct: std::collections::HashSet::new(),
+            post: None,
         }
     }
 
     /// Emit one event.  `ev` must be an object with "op" and "cls".
     /// Events whose class is not "plain" count as non-trivial; distinctness
     /// is by a hash of the whole serialized event.
-    pub fn emit(&mut self, ev: Value) {
+    pub fn emit(&mut self, mut ev: Value) {
+        if let Some(f) = self.post {
+            f(&mut ev);
+        }
         if self.w.is_none() || self.in_shard >= self.shard_size {
             if let Some(mut w) = self.w.take() {
                 w.flush().unwrap();
